@@ -173,7 +173,8 @@ type use struct {
 	detail  string
 	fn      string // enclosing function
 	init    bool   // package-level initialiser or func init()
-	guard   string // mutex guarding the occurrence, if any
+	guard   string // mutex guarding the occurrence, if any (display name)
+	gi      guardInfo
 	callee  *types.Func
 	argIdx  int // parameter index, -1 = receiver
 	pos     token.Pos
@@ -350,31 +351,50 @@ func funcBody(n ast.Node) *ast.BlockStmt {
 	return nil
 }
 
-// mutexCall recognises `X.Lock()`, `X.Unlock()`, ... on a mutex variable and returns the variable and the method.
-func mutexCall(p *pkgInfo, e ast.Expr) (*types.Var, string) {
+// mutexCall recognises `X.Lock()`, `X.Unlock()`, ... where X is a mutex: a variable, pkg.variable, or a
+// chain of fields of a variable.  It returns the ROOT variable of X, a key identifying the mutex and the method.
+func mutexCall(p *pkgInfo, e ast.Expr) (root *types.Var, key string, meth string) {
 	c, ok := e.(*ast.CallExpr)
 	if !ok {
-		return nil, ""
+		return nil, "", ""
 	}
 	s, ok := c.Fun.(*ast.SelectorExpr)
 	if !ok {
-		return nil, ""
+		return nil, "", ""
 	}
-	var id *ast.Ident
-	switch x := s.X.(type) {
-	case *ast.Ident:
-		id = x
-	case *ast.SelectorExpr: // pkg.mu
-		id = x.Sel
+	if t := p.info.TypeOf(s.X); t == nil || !isMutexType(t) {
+		return nil, "", ""
 	}
-	if id == nil {
-		return nil, ""
+	x := ast.Unparen(s.X)
+	path := ""
+	for {
+		switch y := x.(type) {
+		case *ast.Ident:
+			v, ok := p.info.Uses[y].(*types.Var)
+			if !ok {
+				return nil, "", ""
+			}
+			return v, fmt.Sprintf("%s%s@%d", v.Name(), path, v.Pos()), s.Sel.Name
+		case *ast.SelectorExpr:
+			if sel := p.info.Selections[y]; sel != nil {
+				if sel.Kind() != types.FieldVal {
+					return nil, "", ""
+				}
+				path = "." + y.Sel.Name + path
+				x = ast.Unparen(y.X)
+				continue
+			}
+			v, ok := p.info.Uses[y.Sel].(*types.Var) // pkg.mu
+			if !ok {
+				return nil, "", ""
+			}
+			return v, fmt.Sprintf("%s%s@%d", v.Name(), path, v.Pos()), s.Sel.Name
+		case *ast.UnaryExpr, *ast.StarExpr:
+			return nil, "", ""
+		default:
+			return nil, "", ""
+		}
 	}
-	v, ok := p.info.Uses[id].(*types.Var)
-	if !ok || !isMutexType(v.Type()) {
-		return nil, ""
-	}
-	return v, s.Sel.Name
 }
 
 func containsReturn(stmts []ast.Stmt) bool {
@@ -393,14 +413,26 @@ func containsReturn(stmts []ast.Stmt) bool {
 	return found
 }
 
+type guardInfo struct {
+	name      string     // display name of the mutex
+	key       string     // identity of the mutex
+	exclusive bool       // Lock (true) or RLock (false)
+	root      *types.Var // the variable the mutex lives in
+}
+
+func (g guardInfo) pkgLevel() bool {
+	return g.root != nil && g.root.Pkg() != nil && g.root.Parent() == g.root.Pkg().Scope()
+}
+
 // guardOf: the occurrence at pos is lexically inside a critical section of the innermost function:
 // a top-level `M.Lock()` before it and either a top-level `defer M.Unlock()` between the two or a
-// top-level `M.Unlock()` after it with no return statement in between.  M must be declared outside
-// that function (package level, or captured from the scope that also owns the guarded state).
-func (a *analysis) guardOf(p *pkgInfo, inner ast.Node, pos token.Pos) string {
+// top-level `M.Unlock()` after it with no return statement in between.  M must live in a variable
+// declared outside that function (a mutex created per call, a parameter or the receiver guard nothing
+// that is shared between callers); the callers check that M's scope matches the guarded state.
+func (a *analysis) guardOf(p *pkgInfo, inner ast.Node, pos token.Pos) guardInfo {
 	body := funcBody(inner)
 	if body == nil {
-		return ""
+		return guardInfo{}
 	}
 	si := -1
 	for i, s := range body.List {
@@ -409,42 +441,43 @@ func (a *analysis) guardOf(p *pkgInfo, inner ast.Node, pos token.Pos) string {
 		}
 	}
 	if si < 0 {
-		return ""
+		return guardInfo{}
 	}
 	for i := 0; i < si; i++ {
 		es, ok := body.List[i].(*ast.ExprStmt)
 		if !ok {
 			continue
 		}
-		m, meth := mutexCall(p, es.X)
+		m, key, meth := mutexCall(p, es.X)
 		if m == nil || (meth != "Lock" && meth != "RLock") {
 			continue
 		}
 		if inner.Pos() <= m.Pos() && m.Pos() < inner.End() {
-			continue // a mutex created per call guards nothing
+			continue
 		}
 		un := "Unlock"
 		if meth == "RLock" {
 			un = "RUnlock"
 		}
+		g := guardInfo{name: strings.SplitN(key, "@", 2)[0], key: key, exclusive: meth == "Lock", root: m}
 		for k := i + 1; k < len(body.List); k++ {
 			if k < si {
 				if d, ok := body.List[k].(*ast.DeferStmt); ok {
-					if m2, me := mutexCall(p, d.Call); m2 == m && me == un {
-						return m.Name()
+					if _, k2, me := mutexCall(p, d.Call); k2 == key && me == un {
+						return g
 					}
 				}
 			}
 			if k > si {
 				if es2, ok := body.List[k].(*ast.ExprStmt); ok {
-					if m2, me := mutexCall(p, es2.X); m2 == m && me == un && !containsReturn(body.List[i+1:k]) {
-						return m.Name()
+					if _, k2, me := mutexCall(p, es2.X); k2 == key && me == un && !containsReturn(body.List[i+1:k]) {
+						return g
 					}
 				}
 			}
 		}
 	}
-	return ""
+	return guardInfo{}
 }
 
 // calleeOf resolves the function called by a call expression (nil for calls through function values).
@@ -482,7 +515,8 @@ func (a *analysis) classifyUse(p *pkgInfo, stack []ast.Node) use {
 	inner, _, fname, initTime := a.enclosing(p, stack)
 	u := use{fn: fname, init: initTime, pos: id.Pos()}
 	if inner != nil {
-		u.guard = a.guardOf(p, inner, id.Pos())
+		u.gi = a.guardOf(p, inner, id.Pos())
+		u.guard = u.gi.name
 	}
 	var cur ast.Expr = id
 	i := len(stack) - 2
@@ -528,7 +562,7 @@ func (a *analysis) classifyUse(p *pkgInfo, stack []ast.Node) use {
 			}
 			u.callee, u.argIdx = f.Origin(), -1
 			if isSyncType(sel.Recv()) {
-				return done("read", "sync."+f.Name())
+				return done("sync-op", "sync."+f.Name())
 			}
 			if types.IsInterface(sel.Recv()) {
 				u.typ = sel.Recv()
@@ -806,7 +840,7 @@ func (a *analysis) paramReadOnly(f *types.Func, idx int, depth int) (bool, strin
 // benignAliasUse: an occurrence of an ALIAS (parameter, receiver) of the tracked memory that cannot write it.
 func (a *analysis) benignAliasUse(u use, depth int) (bool, string) {
 	switch u.cat {
-	case "read", "call", "range", "atomic":
+	case "read", "call", "range", "atomic", "sync-op":
 		return true, ""
 	case "assign":
 		if u.path == "" {
@@ -1191,6 +1225,16 @@ func (a *analysis) closure(p *pkgInfo, lit *ast.FuncLit, outer ast.Node, depth i
 			notes = append(notes, s)
 		}
 	}
+	// a critical section counts when its mutex is package-level or captured from the same scope as the state
+	// it guards, and when it is exclusive (Lock) or the access is a read (RLock)
+	validGuard := func(u use) string {
+		mutating := isWrite(u.cat) || strings.HasPrefix(u.cat, "escape")
+		if u.gi.key != "" && (u.gi.pkgLevel() || captured(u.gi.root)) && (u.gi.exclusive || !mutating) {
+			return u.gi.key
+		}
+		return ""
+	}
+	keysOf := map[*types.Var]map[string]bool{}
 	for _, u := range uses {
 		v := u.rootVar
 		names[v.Name()] = true
@@ -1206,7 +1250,7 @@ func (a *analysis) closure(p *pkgInfo, lit *ast.FuncLit, outer ast.Node, depth i
 			}
 		}
 		switch {
-		case cat == "read" || cat == "range" || cat == "atomic":
+		case cat == "read" || cat == "range" || cat == "atomic" || cat == "sync-op":
 		case cat == "call":
 			// calling a captured function value: classify that value, too
 			if init := localInit(p, outer, v); init != nil {
@@ -1222,9 +1266,13 @@ func (a *analysis) closure(p *pkgInfo, lit *ast.FuncLit, outer ast.Node, depth i
 			if u.detail != "" {
 				d += " (" + u.detail + ")"
 			}
-			if u.guard != "" {
+			if k := validGuard(u); k != "" {
 				note(d + " under " + u.guard)
 				res = worse(res, verdict{"synchronised", ""})
+				if keysOf[v] == nil {
+					keysOf[v] = map[string]bool{}
+				}
+				keysOf[v][k] = true
 			} else if isWrite(cat) || strings.HasPrefix(cat, "escape") {
 				note(d + " UNGUARDED")
 				res = worse(res, verdict{"unsynchronised-mutable", ""})
@@ -1233,15 +1281,18 @@ func (a *analysis) closure(p *pkgInfo, lit *ast.FuncLit, outer ast.Node, depth i
 	}
 	// a captured variable that is written under a lock must not be read outside it
 	if res.class == "synchronised" {
-		written := map[*types.Var]bool{}
 		for _, u := range uses {
-			if u.guard != "" && u.cat != "read" && u.cat != "range" && u.cat != "call" {
-				written[u.rootVar] = true
+			if u.cat == "sync-op" || u.cat == "atomic" {
+				continue
+			}
+			if ks := keysOf[u.rootVar]; ks != nil && (validGuard(u) == "" || !ks[validGuard(u)]) {
+				note("access to " + u.rootVar.Name() + " outside the critical section")
+				res = worse(res, verdict{"unsynchronised-mutable", ""})
 			}
 		}
-		for _, u := range uses {
-			if written[u.rootVar] && u.guard == "" {
-				note("read of " + u.rootVar.Name() + " outside the critical section")
+		for v, ks := range keysOf {
+			if len(ks) > 1 {
+				note(v.Name() + " is guarded by different mutexes")
 				res = worse(res, verdict{"unsynchronised-mutable", ""})
 			}
 		}
@@ -1339,8 +1390,16 @@ func (a *analysis) classify(g *global, uses []use) {
 	var writes, unguarded, escapes []string
 	guards := map[string]bool{}
 	anyWrite := false
+	// a critical section counts for a package-level variable when its mutex is package-level, too, and when it is
+	// exclusive (Lock) or the access does not write (RLock)
+	validGuard := func(u use) string {
+		if u.gi.key != "" && u.gi.pkgLevel() && (u.gi.exclusive || !isWrite(u.cat)) {
+			return u.gi.key
+		}
+		return ""
+	}
 	for _, u := range uses {
-		if u.init && !strings.HasPrefix(u.cat, "escape") { // R6 (an alias created at init time lives on, though)
+		if u.init && !strings.HasPrefix(u.cat, "escape") && u.cat != "addr" { // R6 (an alias created at init time lives on, though)
 			cats["init-time "+u.cat] = true
 			continue
 		}
@@ -1356,8 +1415,8 @@ func (a *analysis) classify(g *global, uses []use) {
 		if isWrite(cat) {
 			anyWrite = true
 			d := fmt.Sprintf("%s%s in %s", cat, optDetail(u), u.fn)
-			if u.guard != "" {
-				guards[u.guard] = true
+			if k := validGuard(u); k != "" {
+				guards[k] = true
 				d += " under " + u.guard
 			}
 			writes = append(writes, d)
@@ -1369,8 +1428,16 @@ func (a *analysis) classify(g *global, uses []use) {
 	}
 	if anyWrite {
 		for _, u := range uses {
-			if !u.init && u.guard == "" {
+			if u.init && !strings.HasPrefix(u.cat, "escape") && u.cat != "addr" {
+				continue
+			}
+			if u.cat == "sync-op" || u.cat == "atomic" {
+				continue // operations of a sync primitive stored inside the variable synchronise themselves
+			}
+			if k := validGuard(u); k == "" {
 				unguarded = append(unguarded, fmt.Sprintf("%s in %s", u.cat, u.fn))
+			} else {
+				guards[k] = true
 			}
 		}
 		sort.Strings(writes)
@@ -1382,7 +1449,12 @@ func (a *analysis) classify(g *global, uses []use) {
 		}
 		sort.Strings(unguarded)
 		g.Class = "unsynchronised-mutable"
-		g.Evidence = "written after initialisation: " + strings.Join(writes, ", ") + "; unguarded accesses: " + strings.Join(uniq(unguarded), ", ")
+		g.Evidence = "written after initialisation: " + strings.Join(writes, ", ")
+		if len(unguarded) > 0 {
+			g.Evidence += "; unguarded accesses: " + strings.Join(uniq(unguarded), ", ")
+		} else {
+			g.Evidence += "; the critical sections use different mutexes"
+		}
 		return
 	}
 	var cl []string
@@ -1427,7 +1499,7 @@ func (a *analysis) classify(g *global, uses []use) {
 	}
 	g.Class = "unclassified"
 	g.Evidence = usesStr + "; aliases: " + strings.Join(escapes, ", ")
-	if imps, ok := a.imported[g.p.path]; ok {
+	if imps, ok := a.imported[g.p.path]; ok && (strings.HasPrefix(g.p.rel, "internal/") || strings.Contains(g.p.rel, "/internal/") || strings.HasSuffix(g.p.rel, "/internal") || g.p.rel == "internal") {
 		if len(imps) == 0 {
 			g.Evidence += "; package imported by no non-test file of the module"
 		} else {
